@@ -23,6 +23,9 @@ ALLOW = {
 }
 
 
+OVERLAYS = ('K2b',)
+
+
 def run(chk):
     P = mir.Program("K1")
     chk.use_program(P)
